@@ -445,7 +445,7 @@ func getHorizontalTileIdOnPoint(lon float64, lat float64, hZoom int64) string {
 	// 緯度方向のインデックスの計算
 	latIndex := math.Floor(
 		math.Pow(2, float64(hZoom)) *
-			(1 - math.Log(math.Tan(latRadian)+(1/math.Cos(latRadian)))/math.Pi) / 2)
+			(1 - math.Asinh(math.Tan(latRadian))/math.Pi) / 2)
 
 	// 水平精度、経度方向、緯度方向のインデクスをスライスに格納
 	idParams := []string{
